@@ -101,13 +101,29 @@ def nesting_sweep(maxdepth):
     (or of the printer) at some depth shows as a text that is accepted while its printed form is not"""
     out = []
     for d in range(1, maxdepth + 1):
-        inner = ["- 1", "-(1)", "-X", "1 + X"][d % 4]
-        body = inner
-        for k in range(d):
-            body = f"2 * ({body} + {k % 3})" if k % 2 == 0 else f"({body} - 1) / 2"
-        out.append({"id": f"deep{d}", "as": "program", "text": f"p({body}) :- q(X)."})
+        for v, inner in enumerate(["- 1", "-(1)", "-X", "1 + X"]):
+            body = inner
+            for k in range(d):
+                body = f"2 * ({body} + {k % 3})" if k % 2 == 0 else f"({body} - 1) / 2"
+            out.append({"id": f"deep{d}v{v}", "as": "program", "text": f"p({body}) :- q(X)."})
         if d % 4 == 0:
             out.append({"id": f"deepneg{d}", "as": "program", "text": "p(" + "-(" * d + "X" + ")" * d + ") :- q(X)."})
+    return out
+
+
+def nesting_sweep_fol(maxdepth):
+    """the same for theories: connectives and integer terms nested to every depth"""
+    out = []
+    for d in range(1, maxdepth + 1):
+        body = ["p(N$i)", "not q", "N$i < - 1", "p(-N$i)"][d % 4]
+        for k in range(d):
+            body = f"q and ({body} or r)" if k % 2 == 0 else f"not ({body} -> r)"
+        out.append({"id": f"deepf{d}", "as": "theory", "text": body + "."})
+        for v, inner in enumerate(["- 1", "-(1)", "-N$i"]):
+            t = inner
+            for k in range(d):
+                t = f"2 * ({t} + {k % 3})" if k % 2 == 0 else f"({t} - 1) * 2"
+            out.append({"id": f"deept{d}v{v}", "as": "theory", "text": f"p({t})."})
     return out
 
 
@@ -140,6 +156,7 @@ def run_C15(ctx):
     for c in V.tlc_generate(ctx, "formula", 500 if q else 8000, 2 if q else 3) + V.tlc_generate(ctx, "redex", 300 if q else 3000, 2):
         cases.append({"id": c["id"], "as": "theory", "text": c["f"] + "."})
     cases += [{"id": f"x{i}", "as": a, "text": t} for i, (a, t) in enumerate(FOL_EXTRA)]
+    cases += nesting_sweep_fol(140 if q else 300)
     base = os.path.join(V.REPO, "res", "examples")
     k = 0
     for root, _, files in os.walk(base):
